@@ -54,7 +54,10 @@ int io::buffer::advance()
 }
 int io::buffer::reset()
 {
-	_state.done = _d.length() - _state.scratch;
+	// access content to avoid type traits check of array length
+	const array::content *c = _d.data();
+	size_t len = c ? c->length() : 0;
+	_state.done = (len > _state.scratch) ? len - _state.scratch : 0;
 	return _state.done;
 }
 
